@@ -45,6 +45,7 @@ def mutants(text, rnd, limit=None):
     for n, i in enumerate(sig):
         k, t = toks[i]
         nx = sig[n + 1] if n + 1 < len(sig) else None
+        start = len(out)
         if odd(i) or odd(nx):
             focus.update(range(len(out), len(out) + 3))
         out.append(('delete', join(toks[:i] + toks[i + 1:])))
@@ -60,6 +61,10 @@ def mutants(text, rnd, limit=None):
                 out.append(('flip', join(toks[:i] + [(k, f)] + toks[i + 1:])))
         out.append(('truncate', join(toks[:i])))
         out.append(('truncate_mid', join(toks[:i]) + t[:max(1, len(t) // 2)]))
+        if n and toks[sig[n - 1]][1].upper() in ('FROM', 'TO') and k in ('num', 'id'):
+            # the cardinality of an association end is checked by the grammar's actions, not by the grammar: a text
+            # that fails there has been parsed up to that point
+            focus.update(range(start, len(out)))
     if limit is not None and len(out) > limit:
         keep = [out[j] for j in sorted(focus) if j < len(out)][:limit]
         rest = [m for j, m in enumerate(out) if j not in focus]
